@@ -3,4 +3,7 @@ import Hyeong.Props.C07
 #print axioms HyN.C07.cmp_eq_iff
 #print axioms HyN.C07.cmp_gt_iff
 #print axioms HyN.C07.cmp_nan_iff
+#print axioms HyN.C07.cmp_trichotomy
+#print axioms HyN.C07.cmp_trans
+#print axioms HyN.C07.cmp_eq_same
 #print axioms HyN.C07.branch_rule
